@@ -128,7 +128,7 @@ theorem c17_full_budget_after_drain (g : Cfg) (ops : List Op) (b : Bytes) (k : K
     therefore about the buffer bytes only (as in the code). -/
 theorem c17_file_ranges_not_counted :
     let s := run ⟨.lt, 5, 1000, fun i => UInt8.ofNat i⟩ init
-      [.register, .write [1, 2, 3] .eagain, .sendfile 0 900 [], .sendfile 0 1000 [], .sendfile 10 500 []]
+      [.register, .write [1, 2, 3] [.eagain], .sendfile 0 900 [], .sendfile 0 1000 [], .sendfile 10 500 []]
     s.closed = false ∧ s.left = 3 ∧ backlog s.wl = 2403 ∧ s.wl.length = 4 := by
   decide
 
@@ -214,32 +214,32 @@ def g5 : Cfg := ⟨.lt, 5, 10, fun i => UInt8.ofNat i⟩
 
 /-- fill / drain / fill: the counter follows the backlog and comes back to 0 -/
 example :
-    let s1 := run g5 init [.register, .write [1, 2, 3, 4] (.wrote 1)]
-    let s2 := run g5 init [.register, .write [1, 2, 3, 4] (.wrote 1), .evTake true false false [.wrote 9]]
-    let s3 := run g5 init [.register, .write [1, 2, 3, 4] (.wrote 1), .evTake true false false [.wrote 9],
-      .writev [[5, 6], [7, 8, 9]] .eagain]
+    let s1 := run g5 init [.register, .write [1, 2, 3, 4] [.wrote 1]]
+    let s2 := run g5 init [.register, .write [1, 2, 3, 4] [.wrote 1], .evTake true false false [.wrote 9]]
+    let s3 := run g5 init [.register, .write [1, 2, 3, 4] [.wrote 1], .evTake true false false [.wrote 9],
+      .writev [[5, 6], [7, 8, 9]] [.eagain]]
     s1.left = 3 ∧ s2.left = 0 ∧ s2.wl.length = 0 ∧ s3.left = 5 ∧ s3.closed = false := by decide
 
 /-- exactly fitting is accepted, one more byte is rejected and closes -/
-example : fits g5 (run g5 init [.register, .write [1, 2, 3] .eagain]) 2 := by
+example : fits g5 (run g5 init [.register, .write [1, 2, 3] [.eagain]]) 2 := by
   right; decide
-example : (write g5 (run g5 init [.register, .write [1, 2, 3] .eagain]) [4, 5] .eagain).2 = ⟨2, .none⟩ := by decide
-example : (write g5 (run g5 init [.register, .write [1, 2, 3] .eagain]) [4, 5, 6] .eagain).2 = ⟨-1, .overflow⟩ := by decide
-example : (writev g5 (run g5 init [.register, .write [1, 2, 3] .eagain]) [[4], [5, 6]] .eagain).2 = ⟨-1, .overflow⟩ := by decide
+example : (write g5 (run g5 init [.register, .write [1, 2, 3] [.eagain]]) [4, 5] .eagain).2 = ⟨2, .none⟩ := by decide
+example : (write g5 (run g5 init [.register, .write [1, 2, 3] [.eagain]]) [4, 5, 6] .eagain).2 = ⟨-1, .overflow⟩ := by decide
+example : (writev g5 (run g5 init [.register, .write [1, 2, 3] [.eagain]]) [[4], [5, 6]] .eagain).2 = ⟨-1, .overflow⟩ := by decide
 /-- ET and ONESHOT, a bounded Writev that the kernel takes partially: the remainder bookkeeping
     (`queueRest`) under a bound -/
 example :
     let g : Cfg := ⟨.et, 5, 10, fun i => UInt8.ofNat i⟩
-    let s := run g init [.register, .writev [[1, 2], [], [3, 4, 5]] (.wrote 3)]
+    let s := run g init [.register, .writev [[1, 2], [], [3, 4, 5]] [.wrote 3]]
     s.left = 2 ∧ s.wire = [1, 2, 3] ∧ s.closed = false ∧
     (writev g s [[6, 7], [8]] .eagain).2 = ⟨3, .none⟩ ∧ (writev g s [[6, 7], [8, 9]] .eagain).2 = ⟨-1, .overflow⟩ := by
   decide
 example :
     let g : Cfg := ⟨.oneshot, 5, 10, fun i => UInt8.ofNat i⟩
-    let s := run g init [.register, .writev [[1, 2, 3], [4, 5]] (.wrote 1), .evTake true false false [.wrote 9], .evEnd]
+    let s := run g init [.register, .writev [[1, 2, 3], [4, 5]] [.wrote 1], .evTake true false false [.wrote 9], .evEnd]
     s.left = 0 ∧ s.wl.length = 0 ∧ s.wire = [1, 2, 3, 4, 5] := by decide
 
 /-- a queued file range does not count -/
-example : (run g5 init [.register, .write [1, 2, 3] .eagain, .sendfile 0 0 []]).left = 3 := by decide
+example : (run g5 init [.register, .write [1, 2, 3] [.eagain], .sendfile 0 0 []]).left = 3 := by decide
 
 end ConnFull
